@@ -53,6 +53,13 @@ func init() {
 			return lo
 		}
 		v := i.newInput(args[0].(string), "int", 64).(*Term)
+		if hi-lo < 256 {
+			vals := make([]uint64, hi-lo+1)
+			for k := range vals {
+				vals[k] = uint64(int64(lo + k))
+			}
+			i.ex.registerVar(v, vals)
+		}
 		c := i.ts.And(i.ts.Cmp(OpSLE, i.ts.BV(uint64(int64(lo)), 64), v), i.ts.Cmp(OpSLE, v, i.ts.BV(uint64(int64(hi)), 64)))
 		i.assume(c, fr)
 		return v
@@ -281,11 +288,29 @@ func init() {
 	reg("hash/maphash.runtime_rand", func(fr *frame, args []value) value { return uint64(4) })
 	reg("internal/runtime/atomic.Load", atomicLoad)
 
+	// ---- environment stubs (class B) ----------------------------------
+	reg("github.com/nyaruka/gocommon/uuids.NewV4", func(fr *frame, args []value) value {
+		fr.i.uuidSeq++
+		return fmt.Sprintf("00000000-0000-4000-8000-%012d", fr.i.uuidSeq)
+	})
+	reg("github.com/nyaruka/gocommon/uuids.NewV7", func(fr *frame, args []value) value {
+		fr.i.uuidSeq++
+		return fmt.Sprintf("01900000-0000-7000-8000-%012d", fr.i.uuidSeq)
+	})
+
 	// ---- time ---------------------------------------------------------
 	reg("time.now", func(fr *frame, args []value) value {
 		fr.i.clock++
 		// 2025-01-01T00:00:00Z + clock seconds
 		return tuple{int64(1735689600 + fr.i.clock), int32(0), int64(1000000000 * fr.i.clock)}
+	})
+	reg("time.initLocal", func(fr *frame, args []value) value {
+		// as with TZ=UTC (native replays run with TZ=UTC as well)
+		g := fr.i.prog.ImportedPackage("time").Var("localLoc")
+		cell := fr.i.globals[g]
+		st := (*cell).(structure)
+		fr.i.tr.set(&st[0], "UTC")
+		return nil
 	})
 	reg("time.runtimeNano", func(fr *frame, args []value) value { fr.i.clock++; return int64(1000000000 * fr.i.clock) })
 	reg("runtime.nanotime", func(fr *frame, args []value) value { fr.i.clock++; return int64(1000000000 * fr.i.clock) })
@@ -368,6 +393,16 @@ func (i *Interp) newInput(name, kind string, w uint8) value {
 	}, name)
 	t := i.ts.Var(fmt.Sprintf("in%d_%s", id, clean), w)
 	ex.inputs = append(ex.inputs, inputRec{Name: name, Kind: kind, term: t})
+	switch kind {
+	case "byte":
+		vals := make([]uint64, 256)
+		for k := range vals {
+			vals[k] = uint64(k)
+		}
+		ex.registerVar(t, vals)
+	case "bool":
+		ex.registerVar(t, []uint64{0, 1})
+	}
 	return t
 }
 
